@@ -283,6 +283,16 @@ func (d *Dynamic) Draw(ctx vxfw.DrawContext) (vxfw.Surface, error) {
 					ch.Origin.Row += adj
 					s.Children[i] = ch
 				}
+			} else if ch.Origin.Row < 0 {
+				// The cursored widget starts above the screen (a
+				// scroll is pending, or the widgets above it
+				// shrank): adjust all the children so that its top
+				// is at the top of the screen
+				adj := -ch.Origin.Row
+				for i, ch := range s.Children {
+					ch.Origin.Row += adj
+					s.Children[i] = ch
+				}
 			}
 			d.scroll.wantsCursor = false
 
